@@ -296,18 +296,20 @@ class State(object):
                 self._len_nonneg(key, h)
         return self.heap[key]
 
-    def havoc_fresh_region(self):
-        """Havoc every field and container content of the objects allocated since function entry."""
+    def havoc_fresh_region(self, base=None):
+        """Havoc every field and container content of the objects allocated since function entry (or, with `base`,
+        of the objects at addresses >= base only)."""
         self.fresh_epoch = self.nfresh + 1
         self.nfresh += 1
         r = z3.Int('r!fr')
+        bound = self.fn_alloc0 if base is None else base
         for key in list(self.heap.keys()):
             old = self.heap[key]
             h = z3.Const('H%d_%s' % (self.fresh_epoch, key), old.sort())
             # both directions: a term over the old heap (e.g. from an instantiated precondition) must reach
             # the new one too, else e-matching never connects them
             pats = [z3.Select(h, r)] + ([z3.Select(old, r)] if z3.is_const(old) else [])
-            self.pc.append(z3.ForAll([r], z3.Implies(r < self.fn_alloc0, z3.Select(h, r) == z3.Select(old, r)),
+            self.pc.append(z3.ForAll([r], z3.Implies(r < bound, z3.Select(h, r) == z3.Select(old, r)),
                                      patterns=pats))
             self.heap[key] = h
             self._len_nonneg(key, h)
